@@ -27,8 +27,9 @@ CLAIM = {
             "member marker is taken right before the pre-skip, `with_pos` is entered with that marker after the class attributes and "
             "restores the saved position, and skip/goto/marker of ClassRead are relative seek/absolute seek/position; (R17.3) for every visitor "
             "event of the five visitor levels the boolean function of interest flags under which the byte reader delivers it equals the one "
-            "under which the tree replay (`accept`) delivers it, including optional payloads, and every reader arm is governed by the flag "
-            "named after its attribute; (R17.4) every field of every tree node and every payload of every ElementValue variant is replayed by "
+            "under which the tree replay (`accept`) delivers it, including optional payloads, every reader arm is governed by the flag "
+            "named after its attribute, `all()`/`none()` of the five *Interests structs set every/no flag, the tree builder declares "
+            "`all()`, and a visitor impl of an inhabited type panics in a visit_ method only if its own interests() excludes that event; (R17.4) every field of every tree node and every payload of every ElementValue variant is replayed by "
             "its accept function, every visitor event has a call site in accept, and each replayed payload is read from the very field the "
             "tree builder stores that payload in.",
     "note": "Not decided: that a parse arm consumes exactly attribute_length bytes on malformed input, the relative ORDER of events (reader "
@@ -72,7 +73,7 @@ class Ctx:
     def reader_fn(self, name):
         b = self.duke.body(CR + name)
         if b is None:
-            bs = [x for x in self.duke.bodies if x["path"].startswith(CR) and x["name"] == name and x.get("dk") in ("Fn", "AssocFn")]
+            bs = [x for x in self.duke.bodies if x["path"].startswith(CR) and x.get("name") == name and x.get("dk") in ("Fn", "AssocFn")]
             b = bs[0] if len(bs) == 1 else None
         return b
 
@@ -82,7 +83,7 @@ def reader_param_ids(body):
     """Locals of a body that are the byte stream: parameters whose type mentions ClassRead."""
     ids = set()
     for p, ty in zip(body["params"], body["inputs"]):
-        if "ClassRead" in ty or ty in ("&mut Self",) and False:
+        if "ClassRead" in ty:
             for (i, _nm) in H.pat_bindings(p):
                 ids.add(i)
     return ids
@@ -290,7 +291,8 @@ def length_local_of(root, tok_arg, reader_ids):
 
 
 def range_count_source(for_node, root, reader_ids):
-    """For `for _ in 0..N`: the reader primitive that produced N (`read_u16`, ...), reading through one `let`. None otherwise."""
+    """For `for _ in 0..N`: the reader primitive that produced N (`read_u16`, ...), reading through one `let`, provided that read is
+    the stream operation immediately preceding the loop (so the count belongs to this table and not to another one). None otherwise."""
     it = H.peel(for_node["iter"])
     if it.get("k") != "struct" or not (it.get("adt") or "").endswith("ops::range::Range"):
         return None
@@ -299,17 +301,39 @@ def range_count_source(for_node, root, reader_ids):
         return None
     end = H.peel(fs["end"], casts=True)
     loc = H.local_of(end)
+    let_stmt = None
     if loc:
-        init = H.let_init_of(root, loc[0])
-        if init is None:
+        for n in H.walk(root):
+            if n.get("k") == "let" and "init" in n and n["pat"].get("k") == "bind" and n["pat"]["id"] == loc[0]:
+                let_stmt = n
+        if let_stmt is None:
             return None
-        end = H.peel(init, casts=True)
+        end = H.peel(let_stmt["init"], casts=True)
     e0 = H.peel(end, tries=True, casts=True)
-    if e0.get("k") == "mcall" and e0["name"] in D.READ_WIDTH:
-        r = H.local_of(e0["recv"])
-        if r and r[0] in reader_ids:
-            return e0["name"]
-    return None
+    if not (e0.get("k") == "mcall" and e0["name"] in D.READ_WIDTH):
+        return None
+    r = H.local_of(e0["recv"])
+    if not (r and r[0] in reader_ids):
+        return None
+    if let_stmt is not None:
+        # the `let` and the `for` are statements of the same block with no stream access in between
+        chain = H.parents_of(root, for_node) or []
+        blocks = [p for p in chain if p.get("k") == "block"]
+        if not blocks:
+            return None
+        blk = blocks[-1]
+        items = blk["stmts"] + ([blk["tail"]] if "tail" in blk else [])
+        i = next((k for k, x in enumerate(items) if x is let_stmt), None)
+        j = next((k for k, x in enumerate(items) if any(y is for_node for y in H.walk(x))), None)
+        if i is None or j is None or i >= j:
+            return None
+        try:
+            between = Effects(reader_ids).seq(items[i + 1:j])
+        except Unrecognised:
+            return None
+        if any(t for t, _l in between):
+            return None
+    return e0["name"]
 
 
 # ====================================================================================== dispatch structure
@@ -540,7 +564,6 @@ def r17_2(ctx):
         if loc in ctx.spec["member_header_bytes"]:
             try:
                 pre = Effects(rid)
-                chain = H.parents_of(b["body"], m) or []
                 top = b["body"]
                 items = (top["stmts"] + ([top["tail"]] if "tail" in top else [])) if top.get("k") == "block" else [top]
                 idx = next((i for i, s in enumerate(items) if any(x is m for x in H.walk(s))), None)
@@ -554,7 +577,7 @@ def r17_2(ctx):
             except Unrecognised as u:
                 R.unrecognised("R17.2", "member-header:%s" % loc, u.what, sp=u.sp)
     if not R.anchor("R17.2", "a single attribute skipper used by all Break arms", len(skipper_keys) == 1):
-        R.floor("R17.2", 17)
+        R.floor("R17.2", 18)
         return
     skey = next(iter(skipper_keys))
     sk = ctx.duke.by_key.get(skey)
@@ -582,7 +605,7 @@ def r17_2(ctx):
     if rd is not None:
         r17_2_class(ctx, rd, mm["class"][0], skey, member_fn)
     r17_2_primitives(ctx)
-    R.floor("R17.2", 17)
+    R.floor("R17.2", 18)
 
 
 def r17_2_class(ctx, rd, mrec, skey, member_fn):
@@ -653,7 +676,6 @@ def r17_2_class(ctx, rd, mrec, skey, member_fn):
     ok_all = bool(cps)
     wp = None
     for t in cps:
-        kinds = [x[0] for x in t]
         wps = [x for x in t if x[0] == "with_pos"]
         if len(wps) != 1 or t[-1][0] != "with_pos":
             ok_all = False
@@ -726,7 +748,6 @@ def r17_2_primitives(ctx):
                 seq.append(("f", n))
         names = [x for x, _ in seq]
         ok = names == ["marker", "goto", "f", "goto"]
-        detail = None
         if ok:
             saved = None
             for s in H.walk(wp["body"], into_closures=False):
@@ -1124,15 +1145,11 @@ def show_gov(g):
         return "always" if sat else "never"
     n = len(flags)
     # monotone -> minimal true sets; otherwise list minterms
-    terms = []
-    for a in sorted(sat, key=lambda a: (sum(a), a)):
-        terms.append(a)
     mono = all(any(all((not t[i]) or b[i] for i in range(n)) for t in sat) == (b in sat) for b in
                [tuple(bool(x >> i & 1) for i in range(n)) for x in range(1 << n)])
     if mono:
         mins = [t for t in sat if not any(u != t and all((not u[i]) or t[i] for i in range(n)) for u in sat)]
         return " | ".join(sorted(" & ".join(flags[i] for i in range(n) if t[i]) or "always" for t in mins))
-    anti = [tuple(not x for x in a) for a in sat]
     return " | ".join(sorted(" & ".join(("" if a[i] else "!") + flags[i] for i in range(n)) for a in sat))
 
 
@@ -1374,7 +1391,6 @@ def r17_3_impls(ctx, gov_tab):
     level_of_trait = {t: l for l, t in trait_of.items()}
     for lvl, adt in adt_of.items():
         names = [f["name"] for f in duke.adts[adt]["variants"][0]["fields"]] if adt in duke.adts else []
-        mod = adt.rsplit("::", 1)[0]
         for fn, want in (("all", True), ("none", False)):
             bs = [b for b in duke.bodies if b.get("name") == fn and b.get("impl_ty") == adt]
             if not R.anchor("R17.3", "%s::%s" % (short(adt), fn), len(bs) == 1):
@@ -1733,7 +1749,6 @@ def store_places(ctx, st, bm, trait, meth, argi):
     res = []
     for b in bm.get((trait, meth), []):
         params = b["params"][1:] if b["params"] and H.render_pat(b["params"][0]) in ("self", "mut self") else b["params"]
-        off = len(b["params"]) - len(params)
         if argi >= len(params):
             res.append((b, None))
             continue
@@ -1895,12 +1910,10 @@ def r17_4(ctx):
     st = Stores(ctx)
     bm = builder_methods(ctx)
     if not R.anchor("R17.4", "tree builder visitor impls", len(bm) >= 40):
-        R.floor("R17.4", 150)
+        R.floor("R17.4", 220)
         return
     pnames = builder_param_names(ctx)
     by_key = {b["key"]: b for b in abodies}
-    seen_payload = {}
-    seen_group = {}
     for b in abodies:
         root = b["body"]
         for n in H.walk(root):
@@ -1936,7 +1949,6 @@ def r17_4(ctx):
                         want |= sel
                     got = load if isinstance(load, str) else ("<%s %s>" % load if load else None)
                     ok = (not unknown) and want == {got}
-                    seen_payload.setdefault(key, []).append(ok)
                     R.inst("R17.4", key if ok else "%s=replayed-from(%s)/stored-in(%s)" % (key, got, ",".join(sorted(want)) or "?"), ok, sp=n["sp"],
                            expect="read from " + (",".join(sorted(want)) or "?"), got="read from %s" % got,
                            detail="the replay must hand the visitor the value the builder stored for this parameter (same field, same level)")
@@ -1996,7 +2008,7 @@ def r17_4(ctx):
             R.inst("R17.4", key if ok else "%s=fed-from(%s)/stored-in(%s)" % (key, got, ",".join(sorted(want)) or "?"), ok, sp=n["sp"],
                    expect="replayed from " + ",".join(sorted(want)), got="replayed from %s" % got,
                    detail="the nested node replayed here must come from the field in which the builder's finish_%s stores it" % group)
-    R.floor("R17.4", 150)
+    R.floor("R17.4", 220)
 
 
 def variant_field_count(adt, vname):
